@@ -2,6 +2,8 @@ import PMV.Lemmas.IndexEntries
 import PMV.Lemmas.IndexAssemble
 import PMV.Lemmas.IndexValid
 import PMV.Lemmas.IndexOneArr
+import PMV.Lemmas.IndexArrays
+import PMV.Lemmas.IndexNp
 /-
   C09 — indexing reads exactly the selected elements; masked index entries mask results.
 -/
@@ -117,22 +119,23 @@ agree (`agree_basic`), and finally assembles guards, the implicit Ellipsis, shap
     every element is read from the specified source element and is masked iff that source element
     is masked or a selecting entry is masked / out of range.
     Hypothesis `hok`: no integer entry sits on an axis of length 0 (recorded defect KF-C09-1). -/
-theorem getitem_basic (shape : Shape) (mask : Mask) (es : List Entry)
-    (hb : es.all Entry.isBasic = true) :
-    (sel shape es = none → getitemShaped shape mask es = none) ∧
-    (∀ sp, sel shape es = some sp →
-      (∀ sats, selAtoms shape es = some sats → sats.all SAtom.ok = true) →
-      ∃ r, getitemShaped shape mask es = some r ∧ r.shape = sp.shape ∧
+theorem getitem_basic_expanded (shape : Shape) (mask : Mask) (es0 : List Entry)
+    (hb0 : (expand es0).all Entry.isBasic = true) :
+    (sel shape (expand es0) = none → getitemShaped shape mask es0 = none) ∧
+    (∀ sp, sel shape (expand es0) = some sp →
+      (∀ sats, selAtoms shape (expand es0) = some sats → sats.all SAtom.ok = true) →
+      ∃ r, getitemShaped shape mask es0 = some r ∧ r.shape = sp.shape ∧
         ∀ o, r.src o = sp.src o ∧ r.mask.bit o = (mask.bit (sp.src o) || sp.flag o)) := by
-  have hex := expand_basic es hb
+  generalize hex : expand es0 = es at *
+  have hb : es.all Entry.isBasic = true := hb0
   by_cases hc : ellCountE es > 1
   · -- two Ellipses
-    have hp : prepIndex shape es = none := by
+    have hp : prepIndex shape es0 = none := by
       unfold prepIndex; simp only [hex]
       have : (es.filter Entry.isEll).length > 1 := hc
       simp [this]
     exact ⟨fun _ => getitemShaped_prep_none _ _ _ hp, fun sp h => by simp [sel, selAtoms, hc] at h⟩
-  have hc1 : ellCountE (expand es) ≤ 1 := by rw [hex]; omega
+  have hc1 : ellCountE (expand es0) ≤ 1 := by rw [hex]; omega
   by_cases ht : totalAdvance es > shape.length
   · -- more entries than axes
     refine ⟨fun _ => ?_, fun sp h => by simp [sel, selAtoms, hc, ht] at h⟩
@@ -144,7 +147,7 @@ theorem getitem_basic (shape : Shape) (mask : Mask) (es : List Entry)
       have g2 : (es.findIdx? Entry.isEll).isSome = true := by rw [List.findIdx?_isSome]; exact hany
       simp [g1, g2, ht]
     | false =>
-      have hpe := prepIndex_eq shape es hc1 (by rw [hex, hany]; intro h; cases h)
+      have hpe := prepIndex_eq shape es0 hc1 (by rw [hex, hany]; intro h; cases h)
       rw [hex] at hpe
       cases hR : prog (shape.length - totalAdvance es) shape es (.all false) with
       | none => exact getitemShaped_prep_none _ _ _ (by rw [hpe, hR])
@@ -161,7 +164,7 @@ theorem getitem_basic (shape : Shape) (mask : Mask) (es : List Entry)
   -- the main case
   have ht' : totalAdvance es ≤ shape.length := by omega
   generalize hw : shape.length - totalAdvance es = w
-  have hpe := prepIndex_eq shape es hc1 (by rw [hex]; intro _; exact ht')
+  have hpe := prepIndex_eq shape es0 hc1 (by rw [hex]; intro _; exact ht')
   rw [hex, hw] at hpe
   -- the index with its (possibly implicit) Ellipsis
   generalize hes' : (if es.any Entry.isEll then es else es ++ [.ell]) = es'
@@ -210,7 +213,7 @@ theorem getitem_basic (shape : Shape) (mask : Mask) (es : List Entry)
         have g2 : ¬ consTotal pre > shape.length := by rw [i3]; exact ht
         simp only [g1, g2, if_false, hwpre, hidx, a1 hS]
       refine ⟨fun _ => ?_, fun sp h => by simp [sel, hsel, hS] at h⟩
-      have hp : ∃ p, prepIndex shape es = some p ∧ p.pre = pre := by
+      have hp : ∃ p, prepIndex shape es0 = some p ∧ p.pre = pre := by
         rw [hpe, hR]; simp [bcastAll]
       obtain ⟨p, hp1, hp2⟩ := hp
       exact getitemShaped_np_none _ _ _ p hp1 (by rw [hp2]; exact hnp)
@@ -226,15 +229,33 @@ theorem getitem_basic (shape : Shape) (mask : Mask) (es : List Entry)
       have hat := b2 hok'
       obtain ⟨s, hs1, hs2, hs3⟩ := npIndex_noarr shape pre sats (by rw [i2]; omega) (by rw [i3]; exact ht')
         (by rw [hwpre, hidx]; exact hat) harr
-      have hp : prepIndex shape es = some ⟨pre, .all (SAtom.flag sats []), (es.findIdx? Entry.isEll).isSome, false, [], 0⟩ := by
+      have hp : prepIndex shape es0 = some ⟨pre, .all (SAtom.flag sats []), (es.findIdx? Entry.isEll).isSome, false, [], 0⟩ := by
         rw [hpe, hR]
         simp only [bcastAll, locate, hnoarr, b1, Bool.false_or]
         cases SAtom.flag sats [] <;> simp [PostMask.all?]
-      obtain ⟨r, hr1, hr2, hr3⟩ := getitemShaped_noarr shape mask es pre _ _ s hp hs1
+      obtain ⟨r, hr1, hr2, hr3⟩ := getitemShaped_noarr shape mask es0 pre _ _ s hp hs1
       refine ⟨r, hr1, by rw [hr2, hs2, hshape0], fun o => ?_⟩
       obtain ⟨q1, q2⟩ := hr3 o
       obtain ⟨t1, t2⟩ := hsp0' o
       exact ⟨by rw [q1, hs3, t1], by rw [q2, hs3, t1, t2]⟩
+
+/-- `getitem_basic_expanded` for an index without Pair / Vector objects -/
+theorem getitem_basic (shape : Shape) (mask : Mask) (es : List Entry)
+    (hb : es.all Entry.isBasic = true) :
+    (sel shape es = none → getitemShaped shape mask es = none) ∧
+    (∀ sp, sel shape es = some sp →
+      (∀ sats, selAtoms shape es = some sats → sats.all SAtom.ok = true) →
+      ∃ r, getitemShaped shape mask es = some r ∧ r.shape = sp.shape ∧
+        ∀ o, r.src o = sp.src o ∧ r.mask.bit o = (mask.bit (sp.src o) || sp.flag o)) := by
+  have hex := expand_basic es hb
+  have := getitem_basic_expanded shape mask es (by rw [hex]; exact hb)
+  rw [hex] at this
+  exact this
+
+/-- a SHAPELESS Pair / Vector index object expands into integers (masked iff the object is): such
+    an index is covered by `getitem_basic_expanded` -/
+example : expand [.vec 2 ⟨[], fun _ => [1, 5]⟩ (.all true), .slice true [0, 1]] =
+    [.int 1 true, .int 5 false, .slice true [0, 1]] := by rfl
 
 /-- non-vacuity: `q[-1, ..., None, True]` on shape (3,4): accepted, no integer on an empty axis -/
 example : (sel [3, 4] [.int (-1) false, .ell, .none, .bool true false]).isSome = true ∧
@@ -695,6 +716,740 @@ example :
     (sel [3, 4] es).map (fun sp => (sp.shape, sp.flag [0, 0], sp.flag [0, 1], sp.flag [2, 2], sp.src [1, 0])) =
       some ([3, 3], false, true, true, [1, 0]) := by
   refine ⟨rfl, rfl, rfl⟩
+
+/-! ### several array entries of one array shape, adjacent; Pair / Vector index objects -/
+
+/-- FULL (DESIGN §3 `getitem_arrays`): array entries of DIFFERENT, broadcastable shapes; array
+    entries SEPARATED by slices (NumPy moves the axes to the front, polymath relocates them:
+    `relocation_exact` is the isolated stage); integers ahead of the first array; empty axes.
+
+    **getitem_arrays_adjacent_partial.**  Expanded index = plain entries (None / Ellipsis / slices /
+    single booleans) ++ an array entry of array shape `B` ++ a block of advanced entries (integers,
+    masked or out of range, and further integer / boolean array entries of the same array shape `B`,
+    each with masked and out-of-range elements in any mask representation) ++ plain entries; any
+    rank, shape without empty axes: IndexError exactly when the specification rejects the index;
+    otherwise the specified shape — the array axes `B` where the first array stood —, every element
+    masked iff its source is masked or ANY of the selecting entries is masked / out of range at that
+    array coordinate (the post-masks of all entries are accumulated), and the specified source
+    element when not flagged. -/
+theorem getitem_arrays_adjacent_partial (shape : Shape) (mask : Mask) (B : Shape) (pfx : List Entry) (e : Entry)
+    (blk suf0 : List Entry) (hpfx : pfx.all Entry.isPlain = true) (heB : e.arrShape = some B)
+    (hblk : blk.all (fun x => x.isAdvE && x.okB B) = true) (hsuf0 : suf0.all Entry.isPlain = true)
+    (hpos : ∀ n ∈ shape, 0 < n) (es0 : List Entry) (hexp : expand es0 = pfx ++ e :: (blk ++ suf0)) :
+    (sel shape (expand es0) = none → getitemShaped shape mask es0 = none) ∧
+    (∀ sp, sel shape (expand es0) = some sp →
+      ∃ r, getitemShaped shape mask es0 = some r ∧ r.shape = sp.shape ∧
+        ∀ o, Valid sp.shape o →
+          r.mask.bit o = (mask.bit (sp.src o) || sp.flag o) ∧
+          (sp.flag o = false → r.src o = sp.src o)) := by
+  rw [hexp]
+  have he : e.isArrE = true := by cases e <;> simp_all [Entry.arrShape, Entry.isArrE]
+  have heok : e.okB B = true := by simp [Entry.okB, heB]
+  have heE : e.isEll = false := by cases e <;> simp_all [Entry.isArrE, Entry.isEll]
+  have hpfxarr : ∀ x ∈ pfx, x.isArrE = false := by
+    intro x hx
+    have := List.all_eq_true.mp hpfx x hx
+    cases x <;> simp_all [Entry.isPlain, Entry.isArrE]
+  have hplainok : ∀ x : Entry, x.isPlain = true → x.okB B = true ∧ x.isAdvE = false ∧ x.isArrE = false := by
+    intro x hx; cases x <;> simp_all [Entry.isPlain, Entry.okB, Entry.isBasic, Entry.isAdvE, Entry.isArrE]
+  have hsuf0arr : ∀ x ∈ suf0.reverse, x.isArrE = false := by
+    intro x hx
+    exact (hplainok x (List.all_eq_true.mp hsuf0 x (List.mem_reverse.mp hx))).2.2
+  -- every entry is basic or an array entry of shape `B`
+  have hallB : (pfx ++ e :: (blk ++ suf0)).all (Entry.okB B) = true := by
+    rw [List.all_eq_true]
+    intro x hx
+    simp only [List.mem_append, List.mem_cons] at hx
+    rcases hx with hx | rfl | hx | hx
+    · exact (hplainok x (List.all_eq_true.mp hpfx x hx)).1
+    · exact heok
+    · have := List.all_eq_true.mp hblk x hx; simp at this; exact this.2
+    · exact (hplainok x (List.all_eq_true.mp hsuf0 x hx)).1
+  have hokall : (pfx ++ e :: (blk ++ suf0)).all (fun e => e.isBasic || e.isArrE) = true := by
+    rw [List.all_eq_true] at hallB ⊢
+    intro x hx
+    have := hallB x hx
+    cases x <;> simp_all [Entry.okB, Entry.isBasic, Entry.isArrE, Entry.arrShape]
+  -- the advanced entries form one block
+  have hadvmap : (pfx ++ e :: (blk ++ suf0)).map Entry.isAdvE =
+      List.replicate pfx.length false ++ List.replicate (1 + blk.length) true ++ List.replicate suf0.length false := by
+    have h1 := map_const Entry.isAdvE false pfx (fun x hx => (hplainok x (List.all_eq_true.mp hpfx x hx)).2.1)
+    have h2 := map_const Entry.isAdvE true blk (fun x hx => by
+      have := List.all_eq_true.mp hblk x hx; simp at this; exact this.1)
+    have h3 := map_const Entry.isAdvE false suf0 (fun x hx => (hplainok x (List.all_eq_true.mp hsuf0 x hx)).2.1)
+    have h4 : e.isAdvE = true := by cases e <;> simp_all [Entry.isArrE, Entry.isAdvE]
+    simp only [List.map_append, List.map_cons, h1, h2, h3, h4]
+    rw [Nat.add_comm 1, List.replicate_succ]
+    simp
+  have hk0 := findIdx_one pfx e (blk ++ suf0) hpfxarr he
+  obtain ⟨irev, hirev, hkr0⟩ := findIdx_le blk.reverse e pfx.reverse he
+  have hkr : (pfx ++ e :: (blk ++ suf0)).reverse.findIdx? Entry.isArrE = some (irev + suf0.length) := by
+    have := findIdx_skip suf0.reverse (blk.reverse ++ e :: pfx.reverse) hsuf0arr
+    simp only [List.reverse_append, List.reverse_cons, List.append_assoc, List.singleton_append] at this ⊢
+    rw [this, hkr0]; simp
+  simp only [List.length_reverse] at hirev
+  have hellk := ellK_lt (shape.length - totalAdvance (pfx ++ e :: (blk ++ suf0))) pfx e (blk ++ suf0) heE
+  have htake : (pfx ++ e :: (blk ++ suf0)).take pfx.length = pfx := by simp
+  have hlen : (pfx ++ e :: (blk ++ suf0)).length = pfx.length + 1 + blk.length + suf0.length := by simp; omega
+  generalize hsufdef : blk ++ suf0 = suf at *
+  have hsufB : suf.all (Entry.okB B) = true := by
+    rw [List.all_eq_true] at hallB ⊢
+    intro x hx; exact hallB x (by simp [hx])
+  have hes'shape : (if (pfx ++ e :: suf).any Entry.isEll then pfx ++ e :: suf else (pfx ++ e :: suf) ++ [.ell])
+      = pfx ++ e :: (if (pfx ++ e :: suf).any Entry.isEll then suf else suf ++ [.ell]) := by
+    split <;> simp
+  generalize hes : pfx ++ e :: suf = es at *
+  have hex : expand es0 = es := hexp
+  by_cases hc : ellCountE es > 1
+  · have hp : prepIndex shape es0 = none := by
+      unfold prepIndex; simp only [hex]
+      have : (es.filter Entry.isEll).length > 1 := hc
+      simp [this]
+    exact ⟨fun _ => getitemShaped_prep_none _ _ _ hp, fun sp h => by simp [sel, selAtoms, hc] at h⟩
+  have hc1 : ellCountE (expand es0) ≤ 1 := by rw [hex]; omega
+  by_cases ht : totalAdvance es > shape.length
+  · refine ⟨fun _ => ?_, fun sp h => by simp [sel, selAtoms, hc, ht] at h⟩
+    cases hany : es.any Entry.isEll with
+    | true =>
+      apply getitemShaped_prep_none
+      unfold prepIndex; simp only [hex]
+      have g1 : ¬ (es.filter Entry.isEll).length > 1 := hc
+      have g2 : (es.findIdx? Entry.isEll).isSome = true := by rw [List.findIdx?_isSome]; exact hany
+      simp [g1, g2, ht]
+    | false =>
+      have hpe := prepIndex_eq shape es0 hc1 (by rw [hex, hany]; intro h; cases h)
+      rw [hex] at hpe
+      cases hR : prog (shape.length - totalAdvance es) shape es (.all false) with
+      | none => exact getitemShaped_prep_none _ _ _ (by rw [hpe, hR])
+      | some x =>
+        obtain ⟨pre, post, shs⟩ := x
+        obtain ⟨_, m2, _, _, _⟩ := prog_maps _ es hokall _ _ _ _ _ hR
+        have hcons : consTotal pre = totalAdvance es := by
+          simp only [consTotal, totalAdvance, m2]
+        simp only [hR] at hpe
+        cases hB : bcastAll shs with
+        | none => exact getitemShaped_prep_none _ _ _ (by rw [hpe, hB])
+        | some ash =>
+          simp only [hB] at hpe
+          refine getitemShaped_np_none _ _ _ _ hpe ?_
+          show npIndex shape pre = none
+          unfold npIndex
+          have : consTotal pre > shape.length := by omega
+          simp [this]
+  -- the main case
+  have ht' : totalAdvance es ≤ shape.length := by omega
+  generalize hw : shape.length - totalAdvance es = w at *
+  have hpe := prepIndex_eq shape es0 hc1 (by rw [hex]; intro _; exact ht')
+  rw [hex, hw] at hpe
+  generalize hsuf'def : (if es.any Entry.isEll then suf else suf ++ [.ell]) = suf' at hes'shape
+  generalize hes' : (if es.any Entry.isEll then es else es ++ [.ell]) = es' at hes'shape
+  have hsuf' : suf'.all (Entry.okB B) = true := by
+    rw [← hsuf'def]; split
+    · exact hsufB
+    · simp [List.all_append, hsufB, Entry.okB, Entry.isBasic]
+  have hes'B : es'.all (Entry.okB B) = true := by
+    rw [hes'shape]
+    simp only [List.all_append, List.all_cons, heok, hsuf', Bool.true_and, Bool.and_true]
+    rw [List.all_eq_true]
+    intro x hx; exact (hplainok x (List.all_eq_true.mp hpfx x hx)).1
+  have hsel : selAtoms shape es = specAtoms w shape es' := by
+    simp only [selAtoms, hc, ht, if_false, hw, hes']
+  obtain ⟨ag1, ag2⟩ := agreeG_list w B es' hes'B shape hpos (.all false) (fun _ => false) (fun i _ => rfl)
+  have hprog' : prog w shape es' (.all false) =
+      (prog w shape es (.all false)).map fun x =>
+        (if es.any Entry.isEll then x.1 else x.1 ++ [NEntry.ell], x.2.1, x.2.2) := by
+    rw [← hes']
+    cases hany : es.any Entry.isEll with
+    | true => simp
+    | false => simp [prog_append_ell]
+  cases hR : prog w shape es (.all false) with
+  | none =>
+    rw [hR] at hprog'
+    have hs := ag1 (by rw [hprog']; rfl)
+    refine ⟨fun _ => getitemShaped_prep_none _ _ _ (by rw [hpe, hR]), fun sp h => ?_⟩
+    simp [sel, hsel, hs] at h
+  | some x =>
+    obtain ⟨pre, post, shs⟩ := x
+    obtain ⟨m1, m2, m3, m4, m5⟩ := prog_maps _ es hokall _ _ _ _ _ hR
+    obtain ⟨e1, e2, e3, e4⟩ := map_eq_facts NEntry.isEll Entry.isEll pre es m1
+    obtain ⟨_, _, a3, _⟩ := map_eq_facts NEntry.isArr Entry.isArrE pre es m3
+    have hcons : consTotal pre = totalAdvance es := by simp only [consTotal, totalAdvance, m2]
+    have hellc : ellCount pre = ellCountE es := e1
+    rw [hR] at hprog'
+    simp only [Option.map_some] at hprog'
+    obtain ⟨b1, b2⟩ := ag2 _ _ _ hprog'
+    have hidx : (if pre.any NEntry.isEll then pre else pre ++ [NEntry.ell]) =
+        (if es.any Entry.isEll then pre else pre ++ [NEntry.ell]) := by rw [e2]
+    have hwpre : shape.length - consTotal pre = w := by rw [hcons]; exact hw
+    have hsepre : separated (pre.map NEntry.isAdv) = false := by
+      rw [m4, hadvmap]; exact separated_block _ _ _
+    cases hS : specAtoms w shape es' with
+    | none =>
+      refine ⟨fun _ => ?_, fun sp h => by simp [sel, hsel, hS] at h⟩
+      have hnp : npIndex shape pre = none := by
+        unfold npIndex
+        have g1 : ¬ ellCount pre > 1 := by rw [hellc]; exact hc
+        have g2 : ¬ consTotal pre > shape.length := by rw [hcons]; exact ht
+        simp only [g1, g2, if_false, hwpre, hidx, b1 hS]
+      simp only [hR] at hpe
+      cases hB : bcastAll shs with
+      | none => exact getitemShaped_prep_none _ _ _ (by rw [hpe, hB])
+      | some ash =>
+        simp only [hB] at hpe
+        exact getitemShaped_np_none _ _ _ _ hpe hnp
+    | some sats =>
+      obtain ⟨hshs, hrep, ats, hats, hsimS, _⟩ := b2 sats hS
+      subst hshs
+      have hfit : EllFits w shape.length es' := by
+        have htot : totalAdvance es' = totalAdvance es := by
+          rw [← hes']; split
+          · rfl
+          · simp [totalAdvance, Entry.advance]
+        have hcnt : ellCountE es' ≤ 1 := by
+          rw [← hes']
+          cases hany : es.any Entry.isEll with
+          | true => simp; omega
+          | false =>
+            have : (es.filter Entry.isEll).length = 0 := by
+              have := List.any_eq_false.mp hany
+              rw [List.length_eq_zero_iff, List.filter_eq_nil_iff]
+              intro x hx; simpa using this x hx
+            simp [ellCountE, List.filter_append, this, Entry.isEll, List.filter]
+        have := ellFits_guard es' shape.length hcnt (by rw [htot]; exact ht')
+        rw [htot, hw] at this
+        exact this
+      have hLspec : SAtom.axesBefore sats = pfxAxes w pfx := by
+        have h1 := hS; have h2 := hfit
+        rw [hes'shape] at h1 h2
+        exact specAtoms_axesBefore w e suf' he pfx hpfx shape sats h2 h1
+      have hLadv : SAtom.axesBeforeAdv sats = pfxAxes w pfx := by
+        have h1 := hS; have h2 := hfit
+        rw [hes'shape] at h1 h2
+        exact specAtoms_axesBeforeAdv w e suf' he pfx hpfx shape sats h2 h1
+      have hne : SAtom.arrShapes sats ≠ [] := by
+        have h1 := hS
+        rw [hes'shape] at h1
+        exact specAtoms_has_arr w e suf' he pfx hpfx shape sats h1
+      have hBall := bcastAll_const B (SAtom.arrShapes sats) hsimS.2.2.1 hne
+      have hsim : Sim ats sats B :=
+        ⟨hsimS.1, by rw [hsimS.2.1, hBall], hBall, hsimS.2.2.2.1, by rw [hsimS.2.2.2.2.1, hLadv, hLspec], hsimS.2.2.2.2.2⟩
+      generalize hshB : B = sh at *
+      -- the specification's result
+      have hBs : bcastAll (SAtom.arrShapes sats) = some sh := hsim.2.2.1
+      have hselsp : sel shape es = specOf sats := by simp [sel, hsel, hS]
+      have hspec : specOf sats = some ⟨(SAtom.lens sats).take (SAtom.axesBefore sats) ++ sh ++ (SAtom.lens sats).drop (SAtom.axesBefore sats),
+          fun o => SAtom.walk sats (splitAt (SAtom.axesBefore sats) sh.length o).1 (splitAt (SAtom.axesBefore sats) sh.length o).2,
+          fun o => SAtom.flag sats (splitAt (SAtom.axesBefore sats) sh.length o).2⟩ := by
+        simp [specOf, hBs]
+      refine ⟨fun h => (by rw [hselsp, hspec] at h; cases h), fun sp h => ?_⟩
+      rw [hselsp, hspec] at h
+      cases h
+      -- NumPy's result
+      have hnp := npIndex_sim shape pre ats sats sh (by rw [hellc]; omega) (by rw [hcons]; exact ht')
+        (by rw [hwpre, hidx]; exact hats) hsim hsepre
+      -- where `_prep_index` says the array axes are
+      have hpfxell : (pfx.filter Entry.isEll).length ≤ 1 := by
+        have : (pfx.filter Entry.isEll).length ≤ (es.filter Entry.isEll).length := by
+          rw [← hes, List.filter_append, List.length_append]; omega
+        have : ellCountE es ≤ 1 := by omega
+        unfold ellCountE at this; omega
+      have hloc : locate pre (es.findIdx? Entry.isEll) w = (SAtom.axesBefore sats, false) := by
+        have hprelen : pre.length = pfx.length + 1 + blk.length + suf0.length := by rw [e4, hlen]
+        have hrev : pre.reverse.findIdx? NEntry.isArr = some (irev + suf0.length) := by
+          have hm : pre.reverse.map NEntry.isArr = es.reverse.map Entry.isArrE := by
+            rw [List.map_reverse, List.map_reverse, m3]
+          rw [(map_eq_facts NEntry.isArr Entry.isArrE pre.reverse es.reverse hm).2.2.1]; exact hkr
+        rw [locate_block pre _ w pfx.length (1 + blk.length) suf0.length (irev + suf0.length) (blk.length - irev)
+          (by rw [m4]; exact hadvmap) (by rw [a3]; exact hk0) hrev (by omega) (by omega)]
+        simp only [Prod.mk.injEq, and_true]
+        have hm : (pre.take pfx.length).map NEntry.isNC = (es.take pfx.length).map Entry.isNCE := by
+          rw [List.map_take, List.map_take, m5]
+        rw [(map_eq_facts NEntry.isNC Entry.isNCE _ _ hm).1, htake, hellk, hLspec,
+          pfxAxes_count w pfx hpfx hpfxell]
+      have hp : prepIndex shape es0 = some ⟨pre,
+          (if !(sh.all (· != 0)) then .all false else if post.all? then .all true else post),
+          (es.findIdx? Entry.isEll).isSome, false, sh, SAtom.axesBefore sats⟩ := by
+        rw [hpe, hR]
+        simp only [hBall, hloc]
+      -- assemble
+      have hr := getitemShaped_stages shape mask es0 _ _ hp hnp
+      simp only [Bool.false_eq_true, if_false] at hr
+      refine ⟨_, hr, rfl, ?_⟩
+      intro o ho
+      have hLle : SAtom.axesBefore sats ≤ (SAtom.lens sats).length := by
+        rw [← hsim.2.2.2.2.1, ← hsim.1]; exact axesBefore_le ats
+      have hac : Valid sh ((o.drop (SAtom.axesBefore sats)).take sh.length) := by
+        have := valid_mid ho
+        simpa [List.length_take, Nat.min_eq_left hLle] using this
+      have hnz : sh.all (· != 0) = true := by
+        rw [List.all_eq_true]
+        intro n hn
+        have : n ≠ 0 := by
+          intro h0; subst h0
+          exact not_valid_of_zero (s := (SAtom.lens sats).take (SAtom.axesBefore sats) ++ sh ++ (SAtom.lens sats).drop (SAtom.axesBefore sats)) (by simp [hn]) ho
+        simpa using this
+      have hmi := mask_iff mask (if !(sh.all (· != 0)) then .all false else if post.all? then .all true else post)
+        ⟨(SAtom.lens sats).take (SAtom.axesBefore sats) ++ sh ++ (SAtom.lens sats).drop (SAtom.axesBefore sats),
+          fun o => walk ats (splitAt (SAtom.axesBefore sats) sh.length o).1 (splitAt (SAtom.axesBefore sats) sh.length o).2⟩
+        sh (SAtom.lens sats) (SAtom.axesBefore sats) o rfl hLle ho (by
+          intro pm hpm
+          simp only [hnz, Bool.not_true, Bool.false_eq_true, if_false] at hpm
+          split at hpm
+          · cases hpm
+          · subst hpm
+            rw [hrep.1]; exact bcast_self sh)
+      have hpa := postAt_norm post sh _ (SAtom.axesBefore sats) o hrep hac hnz
+      simp only [Bool.false_or] at hpa
+      have hflagac : SAtom.flag sats (splitAt (SAtom.axesBefore sats) sh.length o).2
+          = SAtom.flag sats ((o.drop (SAtom.axesBefore sats)).take sh.length) := rfl
+      show (mergeMask mask _ _ sh (SAtom.axesBefore sats)).bit o = _ ∧ _
+      rw [hmi, hpa]
+      cases hfl : SAtom.flag sats ((o.drop (SAtom.axesBefore sats)).take sh.length) with
+      | true => simp [hflagac, hfl]
+      | false =>
+        have hw' := hsim.2.2.2.2.2 (splitAt (SAtom.axesBefore sats) sh.length o).1 _ hac hfl
+        have hw'' : walk ats (splitAt (SAtom.axesBefore sats) sh.length o).1 (splitAt (SAtom.axesBefore sats) sh.length o).2
+            = SAtom.walk sats (splitAt (SAtom.axesBefore sats) sh.length o).1 (splitAt (SAtom.axesBefore sats) sh.length o).2 := hw'
+        simp only [hflagac, hfl, Bool.or_false, hw'', true_and]
+        intro _; trivial
+
+
+theorem expand_plain : ∀ (l : List Entry), l.all Entry.isPlain = true → expand l = l := by
+  intro l h
+  apply expand_ok
+  rw [List.all_eq_true] at h ⊢
+  intro x hx
+  have := h x hx
+  cases x <;> simp_all [Entry.isPlain, Entry.isBasic]
+
+theorem expand_append (a b : List Entry) : expand (a ++ b) = expand a ++ expand b := by
+  simp [expand, List.flatMap_append]
+
+/-- the per-axis index arrays a Pair / Vector index object with a shape is split into
+    (`as_index_and_mask`): component `j` of every element, the mask on the first only -/
+def vecComp (v : Arr (List Int)) (m : Mask) (j : Nat) : Entry :=
+  .iarr ⟨v.shape, fun i => (v.get i).getD j 0⟩
+    (if j = 0 then (if m.any v.shape then m else Mask.all false) else Mask.all false)
+
+theorem expandEntry_vec (n : Nat) (v : Arr (List Int)) (m : Mask) (hv : v.shape ≠ []) :
+    expandEntry (.vec n v m) = (List.range n).map (vecComp v m) := by
+  simp only [expandEntry, hv, if_false]
+  rfl
+
+/-- **getitem_vector_index.**  A Pair / Vector index OBJECT with a shape (`n ≥ 1` components,
+    masked elements and out-of-range components included, any mask representation), standing after
+    plain entries and followed by plain entries: `__getitem__` agrees with the specification of its
+    expansion into `n` adjacent per-axis index arrays (`as_index_and_mask`, mask on the first):
+    component `j` of element `i` indexes axis `j` of the consumed block, an element is flagged iff
+    the object is masked there or one of its components is out of range, the array axes (the
+    object's shape) stand where the object stood.  Shape without empty axes. -/
+theorem getitem_vector_index (shape : Shape) (mask : Mask) (pfx suf0 : List Entry) (n : Nat)
+    (v : Arr (List Int)) (m : Mask) (hv : v.shape ≠ []) (hpfx : pfx.all Entry.isPlain = true)
+    (hsuf0 : suf0.all Entry.isPlain = true) (hpos : ∀ k ∈ shape, 0 < k) :
+    (sel shape (expand (pfx ++ .vec (n + 1) v m :: suf0)) = none →
+      getitemShaped shape mask (pfx ++ .vec (n + 1) v m :: suf0) = none) ∧
+    (∀ sp, sel shape (expand (pfx ++ .vec (n + 1) v m :: suf0)) = some sp →
+      ∃ r, getitemShaped shape mask (pfx ++ .vec (n + 1) v m :: suf0) = some r ∧ r.shape = sp.shape ∧
+        ∀ o, Valid sp.shape o →
+          r.mask.bit o = (mask.bit (sp.src o) || sp.flag o) ∧
+          (sp.flag o = false → r.src o = sp.src o)) := by
+  have hexp : expand (pfx ++ .vec (n + 1) v m :: suf0) =
+      pfx ++ vecComp v m 0 :: (((List.range n).map Nat.succ).map (vecComp v m) ++ suf0) := by
+    have h1 : expand (pfx ++ .vec (n + 1) v m :: suf0) = expand pfx ++ (expandEntry (.vec (n + 1) v m) ++ expand suf0) := by
+      rw [expand_append]; simp [expand, List.flatMap_cons]
+    rw [h1, expand_plain pfx hpfx, expand_plain suf0 hsuf0, expandEntry_vec _ v m hv, List.range_succ_eq_map]
+    simp
+  refine getitem_arrays_adjacent_partial shape mask v.shape pfx (vecComp v m 0)
+    (((List.range n).map Nat.succ).map (vecComp v m)) suf0 hpfx rfl ?_ hsuf0 hpos _ hexp
+  rw [List.all_eq_true]
+  intro x hx
+  simp only [List.map_map, List.mem_map, Function.comp] at hx
+  obtain ⟨j, _, rfl⟩ := hx
+  simp [vecComp, Entry.isAdvE, Entry.okB, Entry.arrShape]
+
+/-- non-vacuity: `q[:, Pair([[0,1],[5,0],[2,3]], mask=[F,F,T])]` on shape (2,3,4): element 1 is out
+    of range in its first component, element 2 is masked -/
+example :
+    let es : List Entry := [.slice true [0, 1],
+      .vec 2 ⟨[3], fun i => [[0, 1], [5, 0], [2, 3]].getD (i.headD 0) []⟩
+        (.arr ⟨[3], fun i => [false, false, true].getD (i.headD 0) false⟩)]
+    (sel [2, 3, 4] (expand es)).map (fun sp => (sp.shape, sp.flag [1, 0], sp.flag [1, 1], sp.flag [0, 2], sp.src [1, 0])) =
+      some ([2, 3], false, true, true, [1, 0, 1]) := by
+  rfl
+
+/-- FULL: as for the adjacent case (different broadcastable shapes, integers ahead, empty axes), and a
+    prefix that produces no axis other than through the Ellipsis.
+
+    **getitem_arrays_separated_partial** (the relocation).  Expanded index = plain entries (at least
+    one of them not the Ellipsis) ++ an array entry of array shape `B` ++ entries ++ a PLAIN entry
+    ++ entries ++ another array entry of array shape `B` ++ basic entries — i.e. array entries
+    separated by a slice / None / Ellipsis / boolean, for which NumPy puts the array axes FIRST and
+    polymath moves them back (`moved_to_front`, `np.moveaxis`): IndexError exactly when the
+    specification rejects the index; otherwise the result has the specified shape with the array axes
+    where the FIRST array entry stood, every element is masked iff its source is masked or any
+    selecting entry is masked / out of range at its array coordinate, and reads the specified source
+    element when not flagged.  (`q[:, i, :, j]`, `q[None, i, ..., j]`, `q[:, bool1d, :, idx]` …) -/
+theorem getitem_arrays_separated_partial (shape : Shape) (mask : Mask) (B : Shape) (pfx : List Entry) (e : Entry)
+    (mid1 : List Entry) (p : Entry) (mid2 : List Entry) (a2 : Entry) (rest : List Entry)
+    (hpfx : pfx.all Entry.isPlain = true) (hpfx1 : pfx.any (fun x => !x.isEll) = true)
+    (heB : e.arrShape = some B) (hmid1 : mid1.all (Entry.okB B) = true) (hp : p.isPlain = true)
+    (hmid2 : mid2.all (Entry.okB B) = true) (ha2 : a2.arrShape = some B)
+    (hrest : rest.all Entry.isBasic = true)
+    (hpos : ∀ n ∈ shape, 0 < n) (es0 : List Entry)
+    (hexp : expand es0 = pfx ++ e :: (mid1 ++ p :: (mid2 ++ a2 :: rest))) :
+    (sel shape (expand es0) = none → getitemShaped shape mask es0 = none) ∧
+    (∀ sp, sel shape (expand es0) = some sp →
+      ∃ r, getitemShaped shape mask es0 = some r ∧ r.shape = sp.shape ∧
+        ∀ o, Valid sp.shape o →
+          r.mask.bit o = (mask.bit (sp.src o) || sp.flag o) ∧
+          (sp.flag o = false → r.src o = sp.src o)) := by
+  rw [hexp]
+  have he : e.isArrE = true := by cases e <;> simp_all [Entry.arrShape, Entry.isArrE]
+  have ha2E : a2.isArrE = true := by cases a2 <;> simp_all [Entry.arrShape, Entry.isArrE]
+  have heok : e.okB B = true := by simp [Entry.okB, heB]
+  have ha2ok : a2.okB B = true := by simp [Entry.okB, ha2]
+  have heE : e.isEll = false := by cases e <;> simp_all [Entry.isArrE, Entry.isEll]
+  have hpfxarr : ∀ x ∈ pfx, x.isArrE = false := by
+    intro x hx
+    have := List.all_eq_true.mp hpfx x hx
+    cases x <;> simp_all [Entry.isPlain, Entry.isArrE]
+  have hplainok : ∀ x : Entry, x.isPlain = true → x.okB B = true ∧ x.isAdvE = false ∧ x.isArrE = false := by
+    intro x hx; cases x <;> simp_all [Entry.isPlain, Entry.okB, Entry.isBasic, Entry.isAdvE, Entry.isArrE]
+  have hrestarr : ∀ x ∈ rest.reverse, x.isArrE = false := by
+    intro x hx
+    have := List.all_eq_true.mp hrest x (List.mem_reverse.mp hx)
+    cases x <;> simp_all [Entry.isBasic, Entry.isArrE]
+  have hallB : (pfx ++ e :: (mid1 ++ p :: (mid2 ++ a2 :: rest))).all (Entry.okB B) = true := by
+    rw [List.all_eq_true]
+    intro x hx
+    simp only [List.mem_append, List.mem_cons] at hx
+    rcases hx with hx | rfl | hx | rfl | hx | rfl | hx
+    · exact (hplainok x (List.all_eq_true.mp hpfx x hx)).1
+    · exact heok
+    · exact List.all_eq_true.mp hmid1 x hx
+    · exact (hplainok x hp).1
+    · exact List.all_eq_true.mp hmid2 x hx
+    · exact ha2ok
+    · have := List.all_eq_true.mp hrest x hx; simp [Entry.okB, this]
+  have hokall : (pfx ++ e :: (mid1 ++ p :: (mid2 ++ a2 :: rest))).all (fun e => e.isBasic || e.isArrE) = true := by
+    rw [List.all_eq_true] at hallB ⊢
+    intro x hx
+    have := hallB x hx
+    cases x <;> simp_all [Entry.okB, Entry.isBasic, Entry.isArrE, Entry.arrShape]
+  -- a plain entry stands between two array entries
+  have hsepE : separated ((pfx ++ e :: (mid1 ++ p :: (mid2 ++ a2 :: rest))).map Entry.isAdvE) = true := by
+    have h4 : e.isAdvE = true := by cases e <;> simp_all [Entry.isArrE, Entry.isAdvE]
+    have h5 : a2.isAdvE = true := by cases a2 <;> simp_all [Entry.isArrE, Entry.isAdvE]
+    have h6 : p.isAdvE = false := (hplainok p hp).2.1
+    simp only [List.map_append, List.map_cons, h4, h5, h6]
+    exact separated_true _ _ _ _
+  have hft : ((pfx ++ e :: (mid1 ++ p :: (mid2 ++ a2 :: rest))).map Entry.isAdvE)[pfx.length + 1 + mid1.length]?
+      = some false := by
+    have h6 : p.isAdvE = false := (hplainok p hp).2.1
+    have hsplit : pfx ++ e :: (mid1 ++ p :: (mid2 ++ a2 :: rest)) = (pfx ++ e :: mid1) ++ p :: (mid2 ++ a2 :: rest) := by simp
+    rw [hsplit, List.map_append, List.getElem?_append_right (by simp; omega)]
+    simp [h6]
+    have : pfx.length + 1 + mid1.length - (pfx.length + (mid1.length + 1)) = 0 := by omega
+    simp [this, h6]
+  have hk0 := findIdx_one pfx e (mid1 ++ p :: (mid2 ++ a2 :: rest)) hpfxarr he
+  have hkr : (pfx ++ e :: (mid1 ++ p :: (mid2 ++ a2 :: rest))).reverse.findIdx? Entry.isArrE = some rest.length := by
+    have := findIdx_one rest.reverse a2 (mid2.reverse ++ p :: (mid1.reverse ++ e :: pfx.reverse)) hrestarr ha2E
+    simpa using this
+  have hellk := ellK_lt (shape.length - totalAdvance (pfx ++ e :: (mid1 ++ p :: (mid2 ++ a2 :: rest)))) pfx e
+    (mid1 ++ p :: (mid2 ++ a2 :: rest)) heE
+  have htake : (pfx ++ e :: (mid1 ++ p :: (mid2 ++ a2 :: rest))).take pfx.length = pfx := by simp
+  have hlen : (pfx ++ e :: (mid1 ++ p :: (mid2 ++ a2 :: rest))).length
+      = pfx.length + 1 + mid1.length + 1 + mid2.length + 1 + rest.length := by simp; omega
+  have hNC1 : 0 < (pfx.filter Entry.isNCE).length := by
+    obtain ⟨x, hx, hxe⟩ := List.any_eq_true.mp hpfx1
+    have hxp := List.all_eq_true.mp hpfx x hx
+    have : x.isNCE = true := by cases x <;> simp_all [Entry.isPlain, Entry.isNCE, Entry.isEll]
+    exact List.length_pos_of_mem (List.mem_filter.mpr ⟨hx, this⟩)
+  generalize hsufdef : mid1 ++ p :: (mid2 ++ a2 :: rest) = suf at *
+  have hsufB : suf.all (Entry.okB B) = true := by
+    rw [List.all_eq_true] at hallB ⊢
+    intro x hx; exact hallB x (by simp [hx])
+  have hes'shape : (if (pfx ++ e :: suf).any Entry.isEll then pfx ++ e :: suf else (pfx ++ e :: suf) ++ [.ell])
+      = pfx ++ e :: (if (pfx ++ e :: suf).any Entry.isEll then suf else suf ++ [.ell]) := by
+    split <;> simp
+  generalize hes : pfx ++ e :: suf = es at *
+  have hex : expand es0 = es := hexp
+  by_cases hc : ellCountE es > 1
+  · have hp : prepIndex shape es0 = none := by
+      unfold prepIndex; simp only [hex]
+      have : (es.filter Entry.isEll).length > 1 := hc
+      simp [this]
+    exact ⟨fun _ => getitemShaped_prep_none _ _ _ hp, fun sp h => by simp [sel, selAtoms, hc] at h⟩
+  have hc1 : ellCountE (expand es0) ≤ 1 := by rw [hex]; omega
+  by_cases ht : totalAdvance es > shape.length
+  · refine ⟨fun _ => ?_, fun sp h => by simp [sel, selAtoms, hc, ht] at h⟩
+    cases hany : es.any Entry.isEll with
+    | true =>
+      apply getitemShaped_prep_none
+      unfold prepIndex; simp only [hex]
+      have g1 : ¬ (es.filter Entry.isEll).length > 1 := hc
+      have g2 : (es.findIdx? Entry.isEll).isSome = true := by rw [List.findIdx?_isSome]; exact hany
+      simp [g1, g2, ht]
+    | false =>
+      have hpe := prepIndex_eq shape es0 hc1 (by rw [hex, hany]; intro h; cases h)
+      rw [hex] at hpe
+      cases hR : prog (shape.length - totalAdvance es) shape es (.all false) with
+      | none => exact getitemShaped_prep_none _ _ _ (by rw [hpe, hR])
+      | some x =>
+        obtain ⟨pre, post, shs⟩ := x
+        obtain ⟨_, m2, _, _, _⟩ := prog_maps _ es hokall _ _ _ _ _ hR
+        have hcons : consTotal pre = totalAdvance es := by
+          simp only [consTotal, totalAdvance, m2]
+        simp only [hR] at hpe
+        cases hB : bcastAll shs with
+        | none => exact getitemShaped_prep_none _ _ _ (by rw [hpe, hB])
+        | some ash =>
+          simp only [hB] at hpe
+          refine getitemShaped_np_none _ _ _ _ hpe ?_
+          show npIndex shape pre = none
+          unfold npIndex
+          have : consTotal pre > shape.length := by omega
+          simp [this]
+  -- the main case
+  have ht' : totalAdvance es ≤ shape.length := by omega
+  generalize hw : shape.length - totalAdvance es = w at *
+  have hpe := prepIndex_eq shape es0 hc1 (by rw [hex]; intro _; exact ht')
+  rw [hex, hw] at hpe
+  generalize hsuf'def : (if es.any Entry.isEll then suf else suf ++ [.ell]) = suf' at hes'shape
+  generalize hes' : (if es.any Entry.isEll then es else es ++ [.ell]) = es' at hes'shape
+  have hsuf' : suf'.all (Entry.okB B) = true := by
+    rw [← hsuf'def]; split
+    · exact hsufB
+    · simp [List.all_append, hsufB, Entry.okB, Entry.isBasic]
+  have hes'B : es'.all (Entry.okB B) = true := by
+    rw [hes'shape]
+    simp only [List.all_append, List.all_cons, heok, hsuf', Bool.true_and, Bool.and_true]
+    rw [List.all_eq_true]
+    intro x hx; exact (hplainok x (List.all_eq_true.mp hpfx x hx)).1
+  have hsel : selAtoms shape es = specAtoms w shape es' := by
+    simp only [selAtoms, hc, ht, if_false, hw, hes']
+  obtain ⟨ag1, ag2⟩ := agreeG_list w B es' hes'B shape hpos (.all false) (fun _ => false) (fun i _ => rfl)
+  have hprog' : prog w shape es' (.all false) =
+      (prog w shape es (.all false)).map fun x =>
+        (if es.any Entry.isEll then x.1 else x.1 ++ [NEntry.ell], x.2.1, x.2.2) := by
+    rw [← hes']
+    cases hany : es.any Entry.isEll with
+    | true => simp
+    | false => simp [prog_append_ell]
+  cases hR : prog w shape es (.all false) with
+  | none =>
+    rw [hR] at hprog'
+    have hs := ag1 (by rw [hprog']; rfl)
+    refine ⟨fun _ => getitemShaped_prep_none _ _ _ (by rw [hpe, hR]), fun sp h => ?_⟩
+    simp [sel, hsel, hs] at h
+  | some x =>
+    obtain ⟨pre, post, shs⟩ := x
+    obtain ⟨m1, m2, m3, m4, m5⟩ := prog_maps _ es hokall _ _ _ _ _ hR
+    obtain ⟨e1, e2, e3, e4⟩ := map_eq_facts NEntry.isEll Entry.isEll pre es m1
+    obtain ⟨_, _, a3, _⟩ := map_eq_facts NEntry.isArr Entry.isArrE pre es m3
+    have hcons : consTotal pre = totalAdvance es := by simp only [consTotal, totalAdvance, m2]
+    have hellc : ellCount pre = ellCountE es := e1
+    rw [hR] at hprog'
+    simp only [Option.map_some] at hprog'
+    obtain ⟨b1, b2⟩ := ag2 _ _ _ hprog'
+    have hidx : (if pre.any NEntry.isEll then pre else pre ++ [NEntry.ell]) =
+        (if es.any Entry.isEll then pre else pre ++ [NEntry.ell]) := by rw [e2]
+    have hwpre : shape.length - consTotal pre = w := by rw [hcons]; exact hw
+    have hsepre : separated (pre.map NEntry.isAdv) = true := by rw [m4]; exact hsepE
+    cases hS : specAtoms w shape es' with
+    | none =>
+      refine ⟨fun _ => ?_, fun sp h => by simp [sel, hsel, hS] at h⟩
+      have hnp : npIndex shape pre = none := by
+        unfold npIndex
+        have g1 : ¬ ellCount pre > 1 := by rw [hellc]; exact hc
+        have g2 : ¬ consTotal pre > shape.length := by rw [hcons]; exact ht
+        simp only [g1, g2, if_false, hwpre, hidx, b1 hS]
+      simp only [hR] at hpe
+      cases hB : bcastAll shs with
+      | none => exact getitemShaped_prep_none _ _ _ (by rw [hpe, hB])
+      | some ash =>
+        simp only [hB] at hpe
+        exact getitemShaped_np_none _ _ _ _ hpe hnp
+    | some sats =>
+      obtain ⟨hshs, hrep, ats, hats, hsimS, _⟩ := b2 sats hS
+      subst hshs
+      have hfit : EllFits w shape.length es' := by
+        have htot : totalAdvance es' = totalAdvance es := by
+          rw [← hes']; split
+          · rfl
+          · simp [totalAdvance, Entry.advance]
+        have hcnt : ellCountE es' ≤ 1 := by
+          rw [← hes']
+          cases hany : es.any Entry.isEll with
+          | true => simp; omega
+          | false =>
+            have : (es.filter Entry.isEll).length = 0 := by
+              have := List.any_eq_false.mp hany
+              rw [List.length_eq_zero_iff, List.filter_eq_nil_iff]
+              intro x hx; simpa using this x hx
+            simp [ellCountE, List.filter_append, this, Entry.isEll, List.filter]
+        have := ellFits_guard es' shape.length hcnt (by rw [htot]; exact ht')
+        rw [htot, hw] at this
+        exact this
+      have hLspec : SAtom.axesBefore sats = pfxAxes w pfx := by
+        have h1 := hS; have h2 := hfit
+        rw [hes'shape] at h1 h2
+        exact specAtoms_axesBefore w e suf' he pfx hpfx shape sats h2 h1
+      have hLadv : SAtom.axesBeforeAdv sats = pfxAxes w pfx := by
+        have h1 := hS; have h2 := hfit
+        rw [hes'shape] at h1 h2
+        exact specAtoms_axesBeforeAdv w e suf' he pfx hpfx shape sats h2 h1
+      have hne : SAtom.arrShapes sats ≠ [] := by
+        have h1 := hS
+        rw [hes'shape] at h1
+        exact specAtoms_has_arr w e suf' he pfx hpfx shape sats h1
+      have hBall := bcastAll_const B (SAtom.arrShapes sats) hsimS.2.2.1 hne
+      have hsim : Sim ats sats B :=
+        ⟨hsimS.1, by rw [hsimS.2.1, hBall], hBall, hsimS.2.2.2.1, by rw [hsimS.2.2.2.2.1, hLadv, hLspec], hsimS.2.2.2.2.2⟩
+      generalize hshB : B = sh at *
+      -- the specification's result
+      have hBs : bcastAll (SAtom.arrShapes sats) = some sh := hsim.2.2.1
+      have hselsp : sel shape es = specOf sats := by simp [sel, hsel, hS]
+      have hspec : specOf sats = some ⟨(SAtom.lens sats).take (SAtom.axesBefore sats) ++ sh ++ (SAtom.lens sats).drop (SAtom.axesBefore sats),
+          fun o => SAtom.walk sats (splitAt (SAtom.axesBefore sats) sh.length o).1 (splitAt (SAtom.axesBefore sats) sh.length o).2,
+          fun o => SAtom.flag sats (splitAt (SAtom.axesBefore sats) sh.length o).2⟩ := by
+        simp [specOf, hBs]
+      refine ⟨fun h => (by rw [hselsp, hspec] at h; cases h), fun sp h => ?_⟩
+      rw [hselsp, hspec] at h
+      cases h
+      -- NumPy's result
+      have hnp : npIndex shape pre = some ⟨sh ++ SAtom.lens sats,
+          fun o => walk ats (o.drop sh.length) (o.take sh.length)⟩ := by
+        obtain ⟨s1, s2, _, s4, _, _⟩ := hsim
+        unfold npIndex
+        have g1 : ¬ ellCount pre > 1 := by rw [hellc]; omega
+        have g2 : ¬ consTotal pre > shape.length := by rw [hcons]; omega
+        simp only [g1, g2, if_false, hwpre, hidx, hats, s2, s4, hsepre, s1]
+        simp [NpIndex.splitAt]
+      -- where `_prep_index` says the array axes are
+      have hpfxell : (pfx.filter Entry.isEll).length ≤ 1 := by
+        have : (pfx.filter Entry.isEll).length ≤ (es.filter Entry.isEll).length := by
+          rw [← hes, List.filter_append, List.length_append]; omega
+        have : ellCountE es ≤ 1 := by omega
+        unfold ellCountE at this; omega
+      have hloc : locate pre (es.findIdx? Entry.isEll) w = (SAtom.axesBefore sats, true) := by
+        have hprelen : pre.length = pfx.length + 1 + mid1.length + 1 + mid2.length + 1 + rest.length := by rw [e4, hlen]
+        have hrev : pre.reverse.findIdx? NEntry.isArr = some rest.length := by
+          have hm : pre.reverse.map NEntry.isArr = es.reverse.map Entry.isArrE := by
+            rw [List.map_reverse, List.map_reverse, m3]
+          rw [(map_eq_facts NEntry.isArr Entry.isArrE pre.reverse es.reverse hm).2.2.1]; exact hkr
+        have hm : (pre.take pfx.length).map NEntry.isNC = (es.take pfx.length).map Entry.isNCE := by
+          rw [List.map_take, List.map_take, m5]
+        have hcnt := (map_eq_facts NEntry.isNC Entry.isNCE _ _ hm).1
+        rw [htake] at hcnt
+        rw [locate_sep pre _ w pfx.length rest.length (pfx.length + 1 + mid1.length) (by rw [a3]; exact hk0) hrev
+          (by omega) (by omega) (by rw [m4]; exact hft) (by rw [hcnt]; omega)]
+        simp only [Prod.mk.injEq, and_true]
+        rw [hcnt, hellk, hLspec, pfxAxes_count w pfx hpfx hpfxell]
+      have hp : prepIndex shape es0 = some ⟨pre,
+          (if !(sh.all (· != 0)) then .all false else if post.all? then .all true else post),
+          (es.findIdx? Entry.isEll).isSome, true, sh, SAtom.axesBefore sats⟩ := by
+        rw [hpe, hR]
+        simp only [hBall, hloc]
+      -- assemble: the result is relocated from NumPy's "array axes first" layout
+      have hr := getitemShaped_stages shape mask es0 _ _ hp hnp
+      simp only [if_true] at hr
+      have hLle : SAtom.axesBefore sats ≤ (SAtom.lens sats).length := by
+        rw [← hsim.2.2.2.2.1, ← hsim.1]; exact axesBefore_le ats
+      have hshape : (moveFront (SAtom.axesBefore sats) sh.length
+          ⟨sh ++ SAtom.lens sats, fun o => walk ats (o.drop sh.length) (o.take sh.length)⟩).shape
+          = (SAtom.lens sats).take (SAtom.axesBefore sats) ++ sh ++ (SAtom.lens sats).drop (SAtom.axesBefore sats) := by
+        simp [moveFront]
+      refine ⟨_, hr, hshape, ?_⟩
+      intro o ho
+      -- the coordinate in NumPy's layout
+      generalize hL : SAtom.axesBefore sats = L at *
+      have hlenTake : ((SAtom.lens sats).take L).length = L := by simp [List.length_take]; omega
+      have ho' : Valid (sh ++ SAtom.lens sats)
+          ((o.drop L).take sh.length ++ (o.take L ++ o.drop (L + sh.length))) := by
+        have := valid_move (A := (SAtom.lens sats).take L) (B := sh) (C := (SAtom.lens sats).drop L) ho
+        rw [hlenTake, List.take_append_drop] at this
+        exact this
+      have hac : Valid sh ((o.drop L).take sh.length) := by
+        have := valid_mid ho
+        simpa [hlenTake] using this
+      have haclen : ((o.drop L).take sh.length).length = sh.length := valid_length hac
+      have hnz : sh.all (· != 0) = true := by
+        rw [List.all_eq_true]
+        intro n hn
+        have : n ≠ 0 := by
+          intro h0; subst h0
+          exact not_valid_of_zero (s := (SAtom.lens sats).take L ++ sh ++ (SAtom.lens sats).drop L) (by simp [hn]) ho
+        simpa using this
+      have hmi := mask_iff mask (if !(sh.all (· != 0)) then .all false else if post.all? then .all true else post)
+        ⟨sh ++ SAtom.lens sats, fun o => walk ats (o.drop sh.length) (o.take sh.length)⟩
+        sh (SAtom.lens sats) 0 ((o.drop L).take sh.length ++ (o.take L ++ o.drop (L + sh.length)))
+        (by simp) (by omega) ho' (by
+          intro pm hpm
+          simp only [hnz, Bool.not_true, Bool.false_eq_true, if_false] at hpm
+          split at hpm
+          · cases hpm
+          · subst hpm
+            rw [hrep.1]; exact bcast_self sh)
+      have hpa := postAt_norm post sh _ 0 ((o.drop L).take sh.length ++ (o.take L ++ o.drop (L + sh.length))) hrep
+        (by simpa [List.take_left' haclen] using hac) hnz
+      simp only [Bool.false_or, List.drop_zero, List.take_left' haclen] at hpa
+      -- the relocated mask reads the merged mask at the NumPy-layout coordinate
+      have hbit : ∀ (rm : Mask),
+          (match rm with
+            | .arr a => Mask.arr (moveFrontArr L sh.length a)
+            | .all b => Mask.all b).bit o
+          = rm.bit ((o.drop L).take sh.length ++ (o.take L ++ o.drop (L + sh.length))) := by
+        intro rm; cases rm <;> rfl
+      show (match mergeMask mask _ _ sh 0 with
+            | .arr a => Mask.arr (moveFrontArr L sh.length a)
+            | .all b => Mask.all b).bit o = _ ∧ _
+      rw [hbit, hmi, hpa]
+      have hsrc : (moveFront L sh.length ⟨sh ++ SAtom.lens sats,
+            fun o => walk ats (o.drop sh.length) (o.take sh.length)⟩).src o
+          = walk ats (o.take L ++ o.drop (L + sh.length)) ((o.drop L).take sh.length) := by
+        simp only [moveFront]
+        rw [List.drop_left' haclen, List.take_left' haclen]
+      have hflagac : SAtom.flag sats (splitAt L sh.length o).2 = SAtom.flag sats ((o.drop L).take sh.length) := rfl
+      simp only [List.drop_left' haclen, List.take_left' haclen]
+      cases hfl : SAtom.flag sats ((o.drop L).take sh.length) with
+      | true => simp [hflagac, hfl]
+      | false =>
+        have hw' := hsim.2.2.2.2.2 (o.take L ++ o.drop (L + sh.length)) _ hac hfl
+        have hspsrc : SAtom.walk sats (splitAt L sh.length o).1 (splitAt L sh.length o).2
+            = SAtom.walk sats (o.take L ++ o.drop (L + sh.length)) ((o.drop L).take sh.length) := rfl
+        simp only [hflagac, hfl, Bool.or_false, hspsrc, ← hw', true_and]
+        intro _
+        exact hsrc
+
+/-- non-vacuity: `q[:, [0,2], :, [1,3]]` on shape (2,3,2,4): shape (2,2,2), array axis in the middle -/
+example :
+    let i1 : Entry := .iarr ⟨[2], fun i => [0, 2].getD (i.headD 0) 0⟩ (.all false)
+    let i2 : Entry := .iarr ⟨[2], fun i => [1, 3].getD (i.headD 0) 0⟩ (.all false)
+    (sel [2, 3, 2, 4] [.slice true [0, 1], i1, .slice true [0, 1], i2]).map
+        (fun sp => (sp.shape, sp.src [1, 1, 0], sp.src [0, 0, 1])) =
+      some ([2, 2, 2], [1, 2, 0, 3], [0, 0, 1, 1]) := by
+  rfl
+
+/-! ### a sanity theorem for the NumPy model itself (basic indexing) -/
+
+/-- **numpy_basic_sanity.**  On indices of None / Ellipsis / slices (coordinate lists) / integers the
+    NumPy model `npIndex` — atoms, broadcast of advanced shapes, placement, `walk` — agrees, for every
+    rank and shape, with `NpIndex.basicSpec`, a direct entry-by-entry definition of NumPy basic
+    indexing: same failures, same result shape, same source coordinate at every valid result
+    coordinate.  (NumPy's ADVANCED indexing rules in `NpIndex.lean` are validated by the kernel suite
+    only.) -/
+theorem numpy_basic_sanity (shape : Shape) (idx : List NEntry) (hb : idx.all NEntry.isBasicN = true)
+    (h1 : ellCount idx ≤ 1) (h2 : consTotal idx ≤ shape.length) :
+    match npIndex shape idx,
+          basicSpec (shape.length - consTotal idx) shape (if idx.any NEntry.isEll then idx else idx ++ [.ell]) with
+    | none, none => True
+    | some s, some sf => s.shape = sf.1 ∧ ∀ o, Valid sf.1 o → s.src o = sf.2 o
+    | _, _ => False :=
+  npIndex_basic_spec shape idx hb h1 h2
+
+example : (basicSpec 1 [3, 4, 5] [.int (-1), .ell, .coords [0, 2], .newaxis]).map (fun sf => (sf.1, sf.2 [3, 1, 0])) =
+    some ([4, 2, 1], [2, 3, 2]) := by rfl
 
 /-! ### derivatives, iteration, length -/
 
